@@ -16,6 +16,7 @@ def tagsOf (b : Block) (es : List Edge) : List String :=
   (if hypB b then [] else ["hyp-violated"]) ++
   (if rfMatchesB b then ["rf-matches"] else ["rf-unmatched"]) ++
   (if b.term.isSome then ["term"] else ["no-term"]) ++
+  (if b.instrs.any (fun i => i.reads.any fun r => i.captures.contains r) then ["self-read-capture"] else []) ++
   (if b.instrs.any (·.role == .classical) then ["classical"] else []) ++
   (if b.instrs.any (·.role == .rf) then ["rf"] else []) ++
   (if es.any (fun e => isAwait e.label) then ["edge-mem"] else []) ++
